@@ -190,6 +190,16 @@ def _lib_store(st, be, op, r=None):
                 ea = ExternalAddress(v)
             else:
                 ea = ExternalAddress(v, n)
+            held = getattr(st, 'held_ext', None)
+            if held is not None and form in (None, 'int', 'obj') and (v + n) % 3 == 0:
+                # the caller keeps ONE external-address object and updates its (public) fields between stores
+                try:
+                    held.external_address, held.len = ea.external_address, ea.len
+                    ea = held
+                except Exception:
+                    pass
+            elif form in (None, 'int', 'obj'):
+                st.held_ext = ea
             if form == 'to_cell':
                 return call(lambda: b.store_slice(ea.to_cell().begin_parse()))
             return call(b.store_address, ea)
